@@ -17,3 +17,4 @@ CONSTANTS
   BIGSET = FALSE
   SAMPLE = 61
   STREAMLEN = 0
+  TWOCOLOURS = FALSE
